@@ -339,6 +339,7 @@ func panicClass(msg string) string {
 		{"need non-empty snapshot", "empty_snapshot"},
 		{"is unavailable from storage", "storage_unavailable"},
 		{"index out of range", "go_index_out_of_range"},
+		{"slice bounds out of range", "go_slice_bounds"},
 		{"nil pointer", "go_nil_deref"},
 		{"removed all voters", "conf_removed_all_voters"},
 		{"joint", "conf_joint_error"},
